@@ -19,6 +19,21 @@ Definition w_f7 : list op :=
 Definition w_f8 : list op :=
   [OCreate 100 1 1 (10 * U) 10; ORoot; ORemove 100; OFinalise; OCopy].
 
+(* F9 (inplace-update-then-revert): validatorUpdateChange holds newVal by pointer.  The
+   pattern of staking.teDelegationSub - UpdateDelegation stores newVal, then the handler
+   sets newVal.Status in place and calls UpdateValidator(newVal, copy) - changes the object
+   the first journal entry points at; a revert across both subtracts the offline record
+   from the statistics where the online one had been added *)
+Definition w_f9 : list op :=
+  [OFund 1; OCreate 100 1 1 (10 * U) 10; ODelegate 1 100 (3 * U); ORoot; OSnapshot;
+   ODelegate 1 100 (- (3 * U)); OUpdateIn 100 (mkU 1 0 (10 * U) 10 (10 * U) 10 0 0 0); ORevert 0].
+(* the same in-place status change without a revert across it (later revisions stay valid) *)
+Definition ex_inplace : list op :=
+  [OFund 1; OCreate 100 1 1 (10 * U) 10; ODelegate 1 100 (3 * U); ORoot; OSnapshot;
+   ODelegate 1 100 (- (3 * U)); OUpdateIn 100 (mkU 1 0 (10 * U) 10 (10 * U) 10 0 0 0);
+   OSnapshot; OUpdate 100 (mkU 1 0 (12 * U) 12 (12 * U) 12 0 0 0); ORevert 1;
+   OUpdateIn 100 (mkU 1 0 (10 * U) 10 (10 * U) 10 4 4 7); ORoot].
+
 (* regressions of the repaired classes: these histories now satisfy the property *)
 Definition r_f2 : list op :=
   [OCreate 100 1 1 (10 * U) 10; OCreate 200 1 1 (20 * U) 20; ORoot; ORemove 100; ORoot].
@@ -49,12 +64,20 @@ Qed.
 Lemma refuted_f5 : refutes w_f5. Proof. apply refutes_b_spec. vm_compute. reflexivity. Qed.
 Lemma refuted_f7 : refutes w_f7. Proof. apply refutes_b_spec. vm_compute. reflexivity. Qed.
 Lemma refuted_f8 : refutes w_f8. Proof. apply refutes_b_spec. vm_compute. reflexivity. Qed.
+Lemma refuted_f9 : refutes w_f9. Proof. apply refutes_b_spec. vm_compute. reflexivity. Qed.
 
 Definition holds_b (w : list op) : bool :=
   safe w && match run init w with Some s => inv_all s | None => false end.
 Lemma repaired_f2 : holds_b r_f2 = true. Proof. vm_compute. reflexivity. Qed.
 Lemma repaired_f3 : holds_b r_f3 = true. Proof. vm_compute. reflexivity. Qed.
 Lemma repaired_f6 : holds_b r_f6 = true. Proof. vm_compute. reflexivity. Qed.
+
+Lemma inplace_holds : holds_b ex_inplace = true /\
+  match run init ex_inplace with
+  | Some s => (on_count (k0 (stat_ s)), off_count (k0 (stat_ s)), off_stake (k0 (stat_ s))) = (0, 1, 10)
+  | None => False
+  end.
+Proof. vm_compute. auto. Qed.
 
 Theorem full_statement_refuted : ~ (forall ops s, run init ops = Some s -> inv_all s = true).
 Proof.
